@@ -6,6 +6,7 @@
    numbers: hexadecimal with optional leading '-'      trees: ( tag arg* )
    args: i<num> Int | s<hex bytes> Str | b<num> BIntA | f<hex> SFloA | d<hex> DFloA | ( ... ) Sub *)
 open Foam
+type ostring = Stdlib.String.t      (* Foam.string (Coq's) shadows OCaml's after the open *)
 
 (* ---- Z <-> hex, structurally *)
 let rec pos_of_bits = function        (* most significant first, leading 1 dropped *)
@@ -20,7 +21,7 @@ let pos_of_bitlist (bits : bool list) : positive option =
 let hexval c = match c with
   | '0'..'9' -> Char.code c - 48 | 'a'..'f' -> Char.code c - 87 | 'A'..'F' -> Char.code c - 55
   | _ -> failwith "hex"
-let z_of_hex (s : string) : z =
+let z_of_hex (s : ostring) : z =
   let neg = String.length s > 0 && s.[0] = '-' in
   let s = if neg then String.sub s 1 (String.length s - 1) else s in
   let bits = ref [] in
@@ -29,7 +30,7 @@ let z_of_hex (s : string) : z =
   match pos_of_bitlist (List.rev !bits) with
   | None -> Z0
   | Some p -> if neg then Zneg p else Zpos p
-let hex_of_pos (p : positive) : string =
+let hex_of_pos (p : positive) : ostring =
   let rec bits p acc = match p with   (* least significant first into acc reversed *)
     | XH -> true :: acc | XO q -> bits q (false :: acc) | XI q -> bits q (true :: acc) in
   (* build lsb-first list *)
@@ -49,7 +50,7 @@ let hex_of_pos (p : positive) : string =
 let hex_of_z = function Z0 -> "0" | Zpos p -> hex_of_pos p | Zneg p -> "-" ^ hex_of_pos p
 
 let byte_tbl : z array = Array.init 256 (fun i -> z_of_hex (Printf.sprintf "%x" i))
-let bytes_of_hex (s : string) : z list =
+let bytes_of_hex (s : ostring) : z list =
   let n = String.length s / 2 in
   let rec go i acc = if i < 0 then acc
     else go (i - 1) (byte_tbl.(hexval s.[2*i] * 16 + hexval s.[2*i+1]) :: acc) in
@@ -57,7 +58,7 @@ let bytes_of_hex (s : string) : z list =
 let int_of_small_z (x : z) : int =    (* only for bytes: formatting *)
   let rec p = function XH -> 1 | XO q -> 2 * p q | XI q -> 2 * p q + 1 in
   match x with Z0 -> 0 | Zpos q -> p q | Zneg q -> - (p q)
-let hex_of_bytes (l : z list) : string =
+let hex_of_bytes (l : z list) : ostring =
   let b = Buffer.create 1024 in
   List.iter (fun x -> let v = int_of_small_z x in
                       if v < 0 || v > 255 then Buffer.add_string b "??" else Buffer.add_string b (Printf.sprintf "%02x" v)) l;
@@ -78,7 +79,7 @@ and print_arg b = function
   | Sub n -> print_node b n
 let node_to_string n = let b = Buffer.create 256 in print_node b n; Buffer.contents b
 
-let parse_node (toks : string list) : node * string list =
+let parse_node (toks : ostring list) : node * ostring list =
   let rec node = function
     | "(" :: tag :: rest ->
       let rec args acc = function
@@ -96,7 +97,7 @@ let parse_node (toks : string list) : node * string list =
   node toks
 
 (* ---- s-expression tokens: ( ) i<num> s<hex> y<hex> f<hex> d<hex> *)
-let print_tokens (ts : token list) : string =
+let print_tokens (ts : token list) : ostring =
   let b = Buffer.create 1024 in
   List.iter (fun t ->
       if Buffer.length b > 0 then Buffer.add_char b ' ';
@@ -108,7 +109,7 @@ let print_tokens (ts : token list) : string =
       | TA (ASFlo s) -> Buffer.add_char b 'f'; Buffer.add_string b (hex_of_bytes s)
       | TA (ADFlo s) -> Buffer.add_char b 'd'; Buffer.add_string b (hex_of_bytes s)) ts;
   Buffer.contents b
-let parse_tokens (toks : string list) : token list =
+let parse_tokens (toks : ostring list) : token list =
   List.map (fun t ->
       if t = "(" then TL else if t = ")" then TR else
         let body = String.sub t 1 (String.length t - 1) in
@@ -124,7 +125,7 @@ let refusal_name = function
 
 let rec nat_of_int n = if n <= 0 then O else S (nat_of_int (n - 1))
 
-let handle (line : string) : string =
+let handle (line : ostring) : ostring =
   match String.split_on_char ' ' (String.trim line) with
   | ["params"] -> Printf.sprintf "%s %s" (bit (foam_params_ok fP)) (bit (lib_params_ok lP))
   | ["dec"; st; hex] ->
@@ -176,6 +177,65 @@ let handle (line : string) : string =
        Printf.sprintf "MEMBERS %s | %s"
          (String.concat " " (List.map (fun (n, p) -> hex_of_bytes n ^ ":" ^ hex_of_z p) ms))
          (String.concat " " (List.map (function ArTruncated -> "T" | ArBadNumber -> "N") dg)))
+  | ["lexf"; single; zero; neg; texthex] ->
+    (* float atom: DFloatSprint's decision + sexpr.c's marker, given libc's printf text *)
+    let to_coq (s : ostring) : Foam.string =
+      let r = ref EmptyString in
+      for i = String.length s - 1 downto 0 do
+        let c = Char.code s.[i] in
+        let b k = (c lsr k) land 1 = 1 in
+        r := String (Ascii (b 0, b 1, b 2, b 3, b 4, b 5, b 6, b 7), !r)
+      done; !r in
+    let rec of_coq (s : Foam.string) (b : Buffer.t) =
+      match s with
+      | EmptyString -> ()
+      | String (Ascii (b0, b1, b2, b3, b4, b5, b6, b7), t) ->
+        let v x k = if x then 1 lsl k else 0 in
+        Buffer.add_char b (Char.chr (v b0 0 + v b1 1 + v b2 2 + v b3 3 + v b4 4 + v b5 5 + v b6 6 + v b7 7));
+        of_coq t b in
+    let txt = Bytes.to_string (Bytes.of_seq (List.to_seq (List.map (fun z -> Char.chr (int_of_small_z z)) (bytes_arg texthex)))) in
+    let out = atom_of_text (single = "1") (zero = "1") (neg = "1") (to_coq txt) in
+    let b = Buffer.create 32 in of_coq out b;
+    let r = Buffer.contents b in
+    let h = Buffer.create 64 in String.iter (fun c -> Buffer.add_string h (Printf.sprintf "%02x" (Char.code c))) r;
+    Buffer.contents h
+  | ["fileid"; hex] ->
+    (match dec_fileid (bytes_arg hex) with
+     | Some (s, rest) -> Printf.sprintf "OK %s %s %s" (hex_of_bytes s) (hex_of_bytes rest) (hex_of_bytes (enc_fileid s))
+     | None -> "NONE")
+  | ["names"; hex] ->
+    (* LIB_Name section: raw layout, re-encoding, the rebuilt name list, and dedupe(names) re-encoded *)
+    (match dec_names (bytes_arg hex) with
+     | None -> "NONE"
+     | Some (n, rest) ->
+       (match names_of n with
+        | None -> "NONAMES"
+        | Some l ->
+          Printf.sprintf "OK %s %s %s %s | %s | %s" (hex_of_z n.n_symec) (hex_of_z n.n_topc) (hex_of_bytes rest)
+            (hex_of_bytes (enc_names n))
+            (String.concat " " (List.map hex_of_bytes l))
+            (hex_of_bytes (enc_names (names_to_raw n.n_topc l)))))
+  | ["sect"; which; symec; hex] ->
+    (* kind / lazy / file section: records, rest, re-encoding *)
+    let n = z_of_hex symec in
+    let bs = bytes_arg hex in
+    (match which with
+     | "kind" -> (match dec_kinds n bs with
+         | Some (ks, rest) -> Printf.sprintf "OK %s | %s | %s" (hex_of_bytes rest) (hex_of_bytes ks) (hex_of_bytes (enc_kinds ks))
+         | None -> "NONE")
+     | "lazy" -> (match dec_lazy_sect n bs with
+         | Some (rs, rest) ->
+           Printf.sprintf "OK %s | %s | %s" (hex_of_bytes rest)
+             (String.concat " " (List.map (fun ((i, k), h) -> hex_of_z i ^ ":" ^ hex_of_z k ^ ":" ^ hex_of_z h) rs))
+             (hex_of_bytes (enc_lazy_sect n rs))
+         | None -> "NONE")
+     | "file" -> (match dec_file_sect n bs with
+         | Some (rs, rest) ->
+           Printf.sprintf "OK %s | %s | %s" (hex_of_bytes rest)
+             (String.concat " " (List.map (fun ((i, k), s) -> hex_of_z i ^ ":" ^ hex_of_z k ^ ":" ^ hex_of_bytes s) rs))
+             (hex_of_bytes (enc_file_sect n rs))
+         | None -> "NONE")
+     | _ -> "ERR")
   | ["tparams"] -> bit (text_params_ok fP tP)
   | ["lex"; t] ->
     (* spelling of one integer / string atom, and its reading back *)
